@@ -440,7 +440,7 @@ fn run_one(beh: &Value, prop: &str, seed: u64, i: usize) -> Result<u64, Fail> {
         // against the spec: overlay views, committed facts, message count
         let sv = e.a("sv");
         if sv.len() != views.len() {
-            return Err(Fail { step: k as i64, key: format!("{prop}:harness"), msg: "session count differs".into() });
+            vrt::die("session count differs between spec and engine");
         }
         for (s, want) in sv.iter().enumerate() {
             let want = flat_from_json(want);
